@@ -162,6 +162,12 @@ func zzPrepare(script, varspec string) *zzEnv {
 		if d.Name == nil || d.Type == nil {
 			continue
 		}
+		if d.Origin != nil {
+			for _, a := range d.Origin.Args {
+				e.collectExpr(a)
+			}
+			continue
+		}
 		name := d.Name.Name
 		sp := spec[name]
 		kv := strings.Split(sp, ":")
